@@ -36,10 +36,9 @@ def run_pelt(
 ) -> tuple[np.ndarray, list]:
     """Run the PELT algorithm.
 
-    Currently agrees with the 'changepoint::cpt.mean' implementation of PELT in R.
-    If the 'min_segment_length' is large enough to span more than a single changepoint,
-    the algorithm can return a suboptimal partitioning.
-    In that case, resort to the 'optimal_partitioning' algorithm.
+    Pruning is delayed by `min_segment_length - 1` steps, which keeps the returned
+    segmentation optimal among all segmentations with segments of at least
+    `min_segment_length` samples.
 
     Parameters
     ----------
@@ -90,6 +89,8 @@ def run_pelt(
 
     # Evolving set of admissible segment starts.
     cost_eval_starts = np.array(([0]), dtype=np.int64)
+    # Starts found prunable in each of the last `min_segment_shift` iterations.
+    pending_pruned_starts = []
 
     observation_indices = np.arange(2 * min_segment_length - 1, num_obs).reshape(-1, 1)
     for current_obs_ind in observation_indices:
@@ -109,9 +110,19 @@ def run_pelt(
         prev_cpts[current_obs_ind] = cost_eval_starts[argmin_candidate_cost]
 
         # Trimming the admissible starts set: (reuse the array of optimal costs)
-        cost_eval_starts = cost_eval_starts[
+        # A start pruned against the optimal cost of `X[0:current_obs_ind + 1]` can
+        # only be beaten by a changepoint at `current_obs_ind + 1`, which is
+        # admissible for ends at least `min_segment_length` later. The pruning is
+        # therefore applied with a delay of `min_segment_shift` iterations.
+        keep_start = (
             candidate_opt_costs + split_cost <= opt_cost[current_obs_ind + 1] + penalty
-        ]
+        )
+        pending_pruned_starts.append(cost_eval_starts[~keep_start])
+        if len(pending_pruned_starts) > min_segment_shift:
+            pruned_starts = pending_pruned_starts.pop(0)
+            cost_eval_starts = cost_eval_starts[
+                ~np.isin(cost_eval_starts, pruned_starts)
+            ]
 
     return opt_cost[1:], get_changepoints(prev_cpts)
 
